@@ -365,5 +365,8 @@ def make_replay(chk, rep, scn=None):
             c['scenario_output'] = out[-2000:]
             from specs import orchestration
             return orchestration.PREDICATES[c['violated']](out), out[-600:].replace('\n', ' | ')
+        if c.get('kind') in ('record', 'crash', 'buildjob'):
+            from specs import buildjob
+            return buildjob.make_replay(chk, rep, scn)(c)
         return False, 'no replay for kind %r' % c.get('kind')
     return replay
